@@ -76,7 +76,8 @@ def _view_lens(root, fresh, views):
     return live, fr
 
 
-def run_lockstep(rec: edits.Recorder, intern: obs.Interner, tid: int, seed: int, src: str, nsteps: int, npat: int = 2):
+def run_lockstep(rec: edits.Recorder, intern: obs.Interner, tid: int, seed: int, src: str, nsteps: int, npat: int = 2,
+                 misc_p: float = 0.2, unpar_p: float = 0.3):
     rng = random.Random(seed)
     roots = [FST(src, 'exec') for _ in range(npat)]
 
@@ -101,6 +102,45 @@ def run_lockstep(rec: edits.Recorder, intern: obs.Interner, tid: int, seed: int,
     trace = {'id': tid, 'seed': seed, 'init': init, 'steps': []}
     script = []
     for _ in range(nsteps):
+        if rng.random() < misc_p:
+            # other edits: put_docstr / put_line_comment / par() / unpar() of redundant parentheses, also in lock-step
+            m = edits.plan_misc(rng, roots[0].a, roots[0].src, unpar_p)
+            if m is not None:
+                pre_src = roots[0].src
+                pattern = rng.choice(PATTERNS)
+                views_per_run = [[] for _ in roots]
+                fake = edits.Plan()
+                fake.path, fake.field = m.path, 'body'
+                for k in range(1, npat):
+                    sel = _select(rng, roots[k], fake, pattern if k == 1 else rng.choice(PATTERNS))
+                    obs.observe(roots[k], intern, only=sel)
+                    views_per_run[k] = _views(roots[k], sel)
+                excs = [edits.execute_misc(m, r) for r in roots]
+                post = rec.state(roots[0])
+                ev = edits.make_misc_event(m, excs[0], post)
+                ev.update({'kind': m.kind, 'law': False, 'newS': [], 'expValid': True, 'expS': 0, 'expCompiles': True,
+                           'documented': False, 'opts': edits.opts_json({}), 'isView': False, 'vlo': edits.bound(None),
+                           'vhi': edits.bound(None), 'codePar': False, 'codePar0': False, 'field': 'body',
+                           'form': 'misc'})
+                runs = []
+                for k, r in enumerate(roots):
+                    s = rec.state(r)
+                    runs.append({'text': s['text'], 'liveP': s['liveP'], 'rootObj': s['rootObj'],
+                                 'outcome': 'ok' if excs[k] is None else 'raise',
+                                 'sync': s['srcOk'] and s['srcP'] == s['liveP']})
+                ev['runs'] = runs
+                ev['pattern'] = pattern
+                synced = all(x['sync'] for x in runs)
+                ev['hasObs'] = synced
+                ev['obs'] = obs_json(observe_all(), views_per_run) if synced else []
+                if synced and any(a['live'] != a['fresh'] for a in ev['obs']):
+                    ev['obsDiff'] = ['(misc op %s at %s)' % (m.op, m.path)]
+                trace['steps'].append(ev)
+                script.append({'pre_src': pre_src, 'plan': m.describe(), 'post_src': roots[0].src, 'pattern': pattern,
+                               'exc': None if excs[0] is None else f'{type(excs[0]).__name__}: {excs[0]}'})
+                if not synced:
+                    break
+                continue
         plan = None
         for _try in range(5):
             plan = edits.plan_edit(rng, roots[0].a)
